@@ -83,7 +83,7 @@ def constructor(ctx, tk):
 def slice_nonempty(ctx, tk):
     f = ctx.func(RL + "_get_slice")
     fa = ctx.fa(f)
-    sinks = [n for n, c in find_calls(fa, lambda c: c.a[0].k == "attr" and c.a[0].a[1] == "_start_to_end")]
+    sinks = [(n, c) for n, c in find_calls(fa, lambda c: c.a[0].k == "attr" and c.a[0].a[1] == "_start_to_end")]
 
     # orientation from the call: _start_to_end(start, end)
     s_t = e_t = None
@@ -114,7 +114,10 @@ def encoder(ctx, tk):
     fz = [n for n, c in find_calls(fa, lambda c: np_call(c, {"flatnonzero"}))]
     what = "the change mask is forced true at the first position and one past the last before the boundaries are read off"
     ok = forced == {"0", "-1"} and fz and all(fa.cfg.must_pass(fnodes, z) for z in fz)
-    ctx.decide("C14.c", f, what, True if ok else False, "forced positions: %s" % sorted(forced), key="barrier", engine="E1")
+    if not ok:
+        # the other way to force the two ends: start from an all-True mask and write the comparison into the interior only
+        ok = _ends_true_by_construction(fa)
+    ctx.decide("C14.c", f, what, ok, "forced positions: %s" % sorted(forced), key="barrier", engine="E1")
     for r in fa.cfg.returns():
         tm = fa.term(r.ast.value, r)
         if tm.k == "call" and len(tm.a[1]) == 2:
@@ -201,3 +204,60 @@ def decoder(ctx, tk):
                 elif is_const(idx.a[1], 0):
                     ok = val.k == "sub" and is_const(val.a[1], 0)
                     ctx.decide("C14.d", f, "the first run's value is stored at its start", True if ok else None, node=n.ast, key="scatter-first", engine="E5")
+
+
+def _ends_true_by_construction(fa):
+    """True / False / None: the argument of flatnonzero is an all-True boolean array whose later stores leave
+    positions 0 and -1 alone (or store True there)"""
+    verdicts = []
+    for n, c in find_calls(fa, lambda c: np_call(c, {"flatnonzero"}) and c.a[1]):
+        for m in alts(c.a[1][0]):
+            stores = []
+            while m.k == "upd":
+                stores.append((m.a[1], m.a[2]))
+                m = m.a[0]
+            base_true = (np_call(m, {"ones"}) is not None and any((attr_chain(v) or ("",))[-1] in ("bool", "bool_") or (v.k == "global" and v.a[0] == "bool")
+                                                                   for v in [dict(m.a[2]).get("dtype")] + list(m.a[1][1:2]) if v is not None)) \
+                or (np_call(m, {"full"}) is not None and len(m.a[1]) > 1 and is_const(m.a[1][1], True))
+            if not base_true:
+                verdicts.append(False)
+                continue
+            v = True
+            for idx, val in stores:
+                for pos in (0, -1):
+                    cov = _covers(idx, pos)
+                    if cov is None:
+                        v = None if v is True else v
+                    elif cov and not is_const(val, True):
+                        v = False
+            verdicts.append(v)
+    if not verdicts or any(x is False for x in verdicts):
+        return False
+    return None if any(x is None for x in verdicts) else True
+
+
+def _covers(idx, pos):
+    """does a store through `idx` write position pos (0 = first, -1 = last)?  None when not decidable"""
+    if idx.k == "const" and isinstance(idx.a[0], int):
+        return idx.a[0] == pos
+    if idx.k == "un" and idx.a[0] == "-" and idx.a[1].k == "const":
+        return -idx.a[1].a[0] == pos
+    if idx.k == "slice":
+        lo, hi, st = idx.a
+        if not is_const(st, None) and not is_const(st, 1):
+            return None
+        def c(x):
+            if is_const(x, None):
+                return None
+            if x.k == "const" and isinstance(x.a[0], int):
+                return x.a[0]
+            if x.k == "un" and x.a[0] == "-" and x.a[1].k == "const":
+                return -x.a[1].a[0]
+            return "?"
+        l, h = c(lo), c(hi)
+        if l == "?" or h == "?":
+            return None
+        if pos == 0:
+            return l is None or l == 0
+        return h is None
+    return None
